@@ -51,6 +51,18 @@ CHECKS = {
         note=TB + " Partial: memory safety of heap object bodies (strings/arrays) inside libc calls, realloc failure paths, C-stack depth of recursive vm_release on very deep structures, floats, hashmaps, extern calls and linked modules are outside the model (the step answers 'unsupported' and such cases are only observed under sanitizers). Signed-overflow UB of the VM's int64 arithmetic is excluded from the sanitizer build (it wraps with the project's flags).",
         technique="Lean 4 proof (totality, invariants by induction over steps, typing of outcomes) + translator + differential correspondence under sanitizers",
         design="6/C13"),
+    "C14": dict(
+        text=("Lean 4 theorems over the VM heap model (values, cells with counts, allocation-order addresses): recursive vm_release over any "
+              "work list keeps count >= in-degree, never touches a dead address and frees only unreferenced objects (release_safe, well-founded "
+              "on heap size, fun_induction); vm_retain and allocation keep the invariant (retain_inv, alloc_inv in Lemmas/HeapInv); freed ids are "
+              "never reused (freed_once); instruction-level preservation is proved for POP/GC_RELEASE, DUP and all scalar pushes (pop_ok, dup_ok, "
+              "push_scalar_ok); for the remaining opcodes the invariant is not yet a theorem and is decided per run: the real VM prints its whole "
+              "heap (ids, counts, children), stack, globals and frame closures at every instruction boundary, every boundary is audited "
+              "(count >= in-degree, no dangling reference, no double free) and compared with the model's boundary, which reproduces every "
+              "handler's retain/release. Churn family: live objects after the loop are independent of the iteration count."),
+        note=TB + " Partial: invariant preservation is a theorem for the heap primitives and 3 handler families, not yet for all 94 opcodes (those are covered by lock-step comparison against the model and by the audit of the implementation's own state); hashmaps, floats and extern calls are outside the model.",
+        technique="Lean 4 proof (well-founded recursion, counting invariants) + lock-step differential correspondence with heap audit (hook H2)",
+        design="6/C14"),
 }
 
 NOT_APPLICABLE = {
